@@ -399,6 +399,58 @@ class Fn:
             elif k == "UnaryOperator" and n["op"] in ("post++", "post--", "pre++", "pre--"):
                 yield n["i"], n["c"][0], None, n["op"][-2:]
 
+    def updates(self):
+        """every store in a normal form that does not depend on how it is written: (node, lhs, kind, operand) with kind
+        'set' (operand = rhs), 'add' / 'sub' (operand = the amount node, or the int 1 for ++/--), or 'rmw' (other compound
+        operators; operand = rhs). `x = x + e`, `x += e`, `x++`, `++x`, `x = e + x` are all ('add', e|1)."""
+        for a, lhs, rhs, op in self.stores():
+            if op == "++":
+                yield a, lhs, "add", 1
+            elif op == "--":
+                yield a, lhs, "sub", 1
+            elif op == "+=":
+                yield a, lhs, "add", (1 if self.cv(rhs) == 1 else rhs)
+            elif op == "-=":
+                yield a, lhs, "sub", (1 if self.cv(rhs) == 1 else rhs)
+            elif op == "=":
+                j = self.strip(rhs)
+                n = self.nodes[j]
+                lt = self.text(lhs)
+                if n["k"] == "BinaryOperator" and n["op"] in ("+", "-") and self.cv(j) is None:
+                    l, r = n["c"]
+                    if self.text(l) == lt and not self._impure(lhs):
+                        yield a, lhs, ("add" if n["op"] == "+" else "sub"), (1 if self.cv(r) == 1 else r)
+                        continue
+                    if n["op"] == "+" and self.text(r) == lt and not self._impure(lhs):
+                        yield a, lhs, "add", (1 if self.cv(l) == 1 else l)
+                        continue
+                yield a, lhs, "set", rhs
+            else:
+                yield a, lhs, "rmw", rhs
+
+    def _impure(self, i):
+        return any(self.nodes[x]["k"] in ("CallExpr", "AtomicExpr") or (self.nodes[x]["k"] == "UnaryOperator" and self.nodes[x]["op"] in ("post++", "post--", "pre++", "pre--"))
+                   for x in self.walk(i))
+
+    def field_updates(self, field, rec=None):
+        for a, lhs, kind, opnd in self.updates():
+            l = self.strip(lhs)
+            ln = self.nodes[l]
+            if ln["k"] == "MemberExpr" and ln["fld"] == field and (rec is None or ln.get("rec") == rec):
+                yield a, l, kind, opnd
+
+    def var_updates(self, d):
+        for a, lhs, kind, opnd in self.updates():
+            l = self.strip(lhs)
+            if self.nodes[l]["k"] == "DeclRefExpr" and self.nodes[l]["d"] == d:
+                yield a, kind, opnd
+
+    def loops(self):
+        """every loop statement in one shape: dict(node, kind, cond, body, init, inc) — init/inc only for `for`"""
+        for n in self.nodes:
+            if n["k"] in ("ForStmt", "WhileStmt", "DoStmt"):
+                yield dict(node=n["i"], kind=n["k"], cond=n.get("cond"), body=n.get("body"), init=n.get("init"), inc=n.get("inc"))
+
     def field_stores(self, field, rec=None):
         for a, lhs, rhs, op in self.stores():
             l = self.strip(lhs)
